@@ -170,10 +170,14 @@ def tcpPair (s : St) (sock : Sock) (src : Addr) : Option Pair :=
     | some l, some r => some ⟨l, r⟩
     | _, _ => none                                  -- (only publishes the inbound socket)
 
+/-- `set_state_unless_closed(&inner, Connected)`: the state writes of the transport's own tasks never leave
+`Closed` (`stop()` is final) -/
+def toConnected (st : IceState) : IceState := if st = .closed then .closed else .connected
+
 /-- pair found: select it, publish the stream, Connected; none: only the inbound stream is published -/
 def withPairConnected (s : St) (p : Option Pair) : St :=
   match p with
-  | some p => { s with selected := some p, state := .connected, selSock := some .stream }
+  | some p => { s with selected := some p, state := toConnected s.state, selSock := some .stream }
   | none => { s with selSock := some .stream }
 
 /-- `complete_controlled_inbound_tcp_nomination` -/
@@ -208,7 +212,7 @@ def useCandidate (s : St) (sock : Sock) (src : Addr) : St :=
     match ucPair s sock src with
     | some p =>
       let s1 := if shouldSelect s p then publish { s with selected := some p } p sock else s
-      { s1 with state := .connected, nominated := some true }
+      { s1 with state := toConnected s1.state, nominated := some true }
     | none => { s with nominated := some true }
 
 /-- `handle_stun_request` after the reply and the `if !authenticated { return; }` gate -/
